@@ -75,6 +75,7 @@ HARNESSES = {
     # name: (sources relative to harness/, library groups)
     "run_kernel": (["run_kernel.cc"], ["core"]),
     "run_iter": (["run_iter.cc"], ["core"]),
+    "run_lookup": (["run_lookup.cc"], ["core"]),
     "run_leaf": (["run_leaf.cc"], ["core"]),
     "run_registry": (["run_registry.cc"], ["core"]),
     "run_tet": (["run_tet.cc"], ["core"]),
